@@ -13,7 +13,7 @@ PROP = 'C12'
 LEVEL = 'exploration'
 ASSUMPTIONS = [
     'input box: all lists of distinct round counts from {0..R} in any order x heralded on/off x experiment repetitions {1,2,3} x qubit sets (1-3 data, 0-2 ancilla identifiers)',
-    'reference layout mc/ref/kernel.py (pure arithmetic); qutrit calibration points included, as the experiment kernel always appends them',
+    'reference layout mc/ref/kernel.py (pure arithmetic); with and without qutrit calibration points',
 ]
 
 
@@ -42,34 +42,38 @@ class KernelFamily(Family):
     def __init__(self, R):
         self.R = R
         self.name = 'kernels(R=%d)' % R
-        self.rule = ('all lists of distinct round counts from {0..%d} in any order x heralded {on, off} x repetitions {1,2,3} x %d qubit sets; '
+        self.rule = ('all lists of distinct round counts from {0..%d} in any order x heralded {on, off} x calibration points {on, off} x repetitions {1,2,3} x %d qubit sets; '
                      'non-trivial = the list has at least two entries or contains a 0- or 1-round block' % (R, len(QSETS)))
 
     def shards(self, tier):
-        return [(h, reps) for h in (True, False) for reps in (1, 2, 3)]
+        return [(h, reps, cal) for h in (True, False) for reps in (1, 2, 3) for cal in (True, False)]
 
     def cases(self, tier, shard):
-        h, reps = shard
+        h, reps, cal = shard
         for rl in rounds_lists(self.R):
             for qs in QSETS:
-                yield (rl, h, reps, qs)
+                yield (rl, h, reps, qs, cal)
 
     def describe(self, tier):
         return {'R': self.R, 'lists': sum(1 for _ in rounds_lists(self.R)), 'qubit_sets': QSETS}
 
     def run(self, case):
-        rl, her, reps, (nd, na) = case
+        rl, her, reps, (nd, na), cal = case
         res = Res()
         D = [QubitIDObj('D%d' % (i + 1)) for i in range(nd)]
         A = [QubitIDObj('Z%d' % (i + 1)) for i in range(na)]
         outsider = QubitIDObj('X4')
-        k = RepetitionExperimentKernel(rounds=list(rl), heralded_initialization=her, qutrit_calibration_points=True,
-                                       involved_data_qubit_ids=D, involved_ancilla_qubit_ids=A, experiment_repetitions=reps)
-        slots = cycle_layout(rl, her)
+        given_rounds, given_D, given_A = list(rl), list(D), list(A)
+        k = RepetitionExperimentKernel(rounds=given_rounds, heralded_initialization=her, qutrit_calibration_points=cal,
+                                       involved_data_qubit_ids=given_D, involved_ancilla_qubit_ids=given_A, experiment_repetitions=reps)
+        # the description was given at construction: what the caller does with its own lists afterwards does not matter
+        given_rounds.reverse()
+        given_rounds.append(self.R + 1)
+        slots = cycle_layout(rl, her, cal)
         n = len(slots)
         ks = k.indexing_kernels
         # contiguous, non-overlapping kernels, matching the layout blocks
-        blocks = list(range(len(rl))) + ['cal']
+        blocks = list(range(len(rl))) + (['cal'] if cal else [])
         if len(ks) != len(blocks):
             res.fail('C12-kernel-count', '%r: %d kernels for %d blocks' % (case, len(ks), len(blocks)))
         prev_stop = None
@@ -88,7 +92,7 @@ class KernelFamily(Family):
             res.fail('C12-start', '%r: experiment starts at %d' % (case, k.start_index))
         outcome = []
         for q, is_anc, involved in [(x, False, True) for x in D] + [(x, True, True) for x in A] + [(outsider, False, False)]:
-            _, want = expected(rl, her, reps, is_anc, involved)
+            _, want = expected(rl, her, reps, is_anc, involved, cal)
             got = {}
             for r in rl:
                 got[('heralded', r)] = rows(k.get_heralded_cycle_acquisition_indices(q, r), reps)
@@ -109,6 +113,10 @@ class KernelFamily(Family):
                 if cat in ('heralded', 'stabilizer+projected', 'projected'):
                     bi = list(rl).index(r)
                     lo, hi = block_span(slots, bi)
+                elif not cal:
+                    if any(v):
+                        res.fail('C12-inside', '%r qubit %r: calibration indices %r reported although the description has no calibration points' % (case, q, v))
+                    continue
                 else:
                     lo, hi = block_span(slots, 'cal')
                 for kk, row in enumerate(v):
@@ -128,7 +136,7 @@ class KernelFamily(Family):
             res.fail('C12-absent-round', '%r: indices reported for a round count that is not in the list' % (case,))
         for dataset_reps in (reps, reps + 4):
             try:
-                est = RepetitionExperimentKernel.estimate_experiment_repetitions(list(rl), her, True, n * dataset_reps)
+                est = RepetitionExperimentKernel.estimate_experiment_repetitions(list(rl), her, cal, n * dataset_reps)
             except AssertionError as e:
                 est = 'AssertionError'
             if est != dataset_reps:
